@@ -859,6 +859,10 @@ func (a *Agent) DownloadAdd(FileID int, FilePath string, FileSize int64) error {
 		return errors.New("File didn't started with agent download path. abort")
 	}
 
+	// work on the path that was checked: creating the unresolved one would make every directory it walks through on its
+	// way out of and back into the download directory
+	DemonDownload = path
+
 	if _, err := os.Stat(DemonDownload); os.IsNotExist(err) {
 		if err = os.MkdirAll(DemonDownload, os.ModePerm); err != nil {
 			logger.Error("Failed to create Logr demon download path" + a.NameID + ": " + err.Error())
